@@ -45,6 +45,7 @@ def parse_harnesses(unit):
                 "tier": meta.get("tier", "quick"),
                 "features": meta.get("features", ""),
                 "known": meta.get("known", ""),
+                "fns": [x for x in meta.get("fns", "").split("+") if x],
             })
             meta = None
     return res
@@ -203,6 +204,8 @@ def run_group(pid, groups, tier, only=None, known_ids=()):
                           "text": "harness %s (%s%s)" % (h["harness"], h["kind"], (", bound: " + h["bound"]) if h["bound"] else "")}
                     res["obligations"].append(ob)
                     res["harness_times"].append({"harness": h["harness"], "s": r["time"], "status": r["status"]})
+                    for fnn in h.get("fns", []):
+                        res.setdefault("functions", []).append({"unit": h["unit"], "fn": fnn, "harness": h["harness"], "mode": "kani-" + h["kind"] + "-harness"})
                     if h["kind"] == "bounded":
                         res["bounded"].append({"harness": h["harness"], "bound": h["bound"]})
                     if r["covers"] and r["covers"][0] != r["covers"][1]:
